@@ -37,6 +37,11 @@ def gen_fileset(r, blocks, prev):
             continue
         parts = [r.choice(blocks) for _ in range(r.choice([0, 1, 1, 2, 3]))]
         fs[nm] = b''.join(parts) + (r.randbytes(r.choice([0, 0, 3, 9])))
+    if r.random() < 0.5:
+        # several small files of exactly the same size but different content (they share chunks of the stream: their order matters)
+        n = r.choice([5, 12, 30])
+        for nm in ('q/eq1', 'eq2', 'c/eq3')[:r.choice([2, 3])]:
+            fs[nm] = r.randbytes(n)
     return fs
 
 
@@ -80,7 +85,11 @@ def run_history(arg):
             if k < 0.45 or not present:
                 repeat = prev is not None and r.random() < 0.25
                 fs = prev if repeat else gen_fileset(r, blocks, prev)
-                res = w.snapshot(ui, fs, repo=repo_of(ui), whole_second=r.random() < 0.2)
+                order = None
+                if r.random() < 0.5 and fs:
+                    order = sorted(fs)
+                    r.shuffle(order)
+                res = w.snapshot(ui, fs, repo=repo_of(ui), whole_second=r.random() < 0.2, path_order=order)
                 prev = fs
                 st.update(kind='snapshot', op=res['op'], error=None, uploaded=sorted({tuple(w.abstract_name(x)) for x in res['uploaded']}),
                           upload_count=len(res['uploaded']), repeat=repeat)
